@@ -7,8 +7,10 @@ package libp2p
 // the gate is held for a chosen delay.  Also ungated runs (natural relative speeds).
 
 import (
+	"bytes"
 	"context"
 	"crypto/ecdsa"
+	"encoding/hex"
 	"encoding/json"
 	"go/ast"
 	"go/parser"
@@ -29,6 +31,10 @@ import (
 	"github.com/ethereum/go-ethereum/crypto"
 	"github.com/libp2p/go-libp2p/core/network"
 	"github.com/libp2p/go-libp2p/core/peer"
+	"github.com/libp2p/go-libp2p/core/protocol"
+	mockkeysigner "github.com/primevprotocol/mev-commit/pkg/keysigner/mock"
+	"github.com/primevprotocol/mev-commit/pkg/p2p/libp2p/internal/handshake"
+	"github.com/primevprotocol/mev-commit/pkg/signer"
 	"github.com/primevprotocol/mev-commit/pkg/p2p"
 	"github.com/prometheus/client_golang/prometheus"
 )
@@ -44,6 +50,12 @@ type c20In struct {
 	// the transport connection already exists and was dialed by the responder (AutoNAT dial-back,
 	// simultaneous connect, any earlier libp2p-level dial): Connect runs the handshake over it
 	ResponderDials bool `json:"responder_dials,omitempty"`
+	// the initiator is the second incarnation of its node (same key): the first one connected
+	// before and goes away once the second one's Connect has succeeded
+	Reincarnated bool `json:"reincarnated,omitempty"`
+	// the responder is held not inside the handshake but between its return and the registration
+	// of the peer (in-package: scripted stream whose Conn() is held at the registry call)
+	HeldBeforeRegister bool `json:"held_before_register,omitempty"`
 }
 type c20Obs struct {
 	ConnectOK    bool `json:"connect_ok"`
@@ -149,6 +161,18 @@ func c20Run(t *testing.T, in c20In, rng *vrng) (obs c20Obs) {
 			time.Sleep(5 * time.Millisecond)
 		}
 	}
+	var first *Service
+	if in.Reincarnated {
+		first, err = New(&Options{KeySigner: cks, Secret: "verif", ListenPort: 0, ListenAddr: "127.0.0.1", PeerType: p2p.PeerType(in.ClientRole),
+			Register: c20Registry{}, Logger: slog.New(&c20Log{}), MetricsReg: prometheus.NewRegistry()})
+		if err != nil {
+			t.Fatal(err)
+		}
+		if _, err := first.Connect(ctx, info); err != nil {
+			first.Close()
+			first = nil
+		}
+	}
 	if in.Gated {
 		sks.mu.Lock()
 		sks.armed, sks.gate, sks.hit = true, make(chan struct{}), make(chan struct{})
@@ -161,6 +185,15 @@ func c20Run(t *testing.T, in c20In, rng *vrng) (obs c20Obs) {
 			close(sks.gate)
 		}
 		return obs
+	}
+	if first != nil {
+		// the old incarnation goes away; wait until the responder has seen its connection close
+		before := len(server.host.Network().ConnsToPeer(client.host.ID()))
+		first.Close()
+		for i := 0; i < 400 && len(server.host.Network().ConnsToPeer(client.host.ID())) >= before && before > 1; i++ {
+			time.Sleep(5 * time.Millisecond)
+		}
+		time.Sleep(20 * time.Millisecond)
 	}
 	if in.FirstAfter > 0 {
 		time.Sleep(time.Duration(in.FirstAfter) * time.Microsecond)
@@ -279,6 +312,99 @@ func c20Timers() []int {
 	return out
 }
 
+type c20Host struct {
+	c04Host
+	handler network.StreamHandler
+}
+
+func (h *c20Host) SetStreamHandlerMatch(_ protocol.ID, _ func(protocol.ID) bool, hd network.StreamHandler) {
+	h.handler = hd
+}
+
+// c20HeldBeforeRegister: the real inbound handshake handler and the real stream wrapper on a
+// Service with a scripted libp2p side.  The handshake completes; the handler is then held at the
+// call that registers the peer while the initiator's first stream arrives.
+func c20HeldBeforeRegister(t *testing.T, in c20In, rng *vrng) (obs c20Obs) {
+	defer func() {
+		if r := recover(); r != nil {
+			obs.Panic = true
+		}
+	}()
+	w := c04MkWorld(rng)
+	ks := mockkeysigner.NewMockKeySigner(w.localKey, crypto.PubkeyToAddress(w.localKey.PublicKey))
+	hs, err := handshake.New(ks, p2p.PeerType(in.ServerRole), "token-local", signer.New(), &c04Reg{answer: true}, GetEthAddressFromPeerID)
+	if err != nil {
+		t.Fatal(err)
+	}
+	lg := &c20Log{}
+	fh := &c20Host{}
+	svc := &Service{baseCtx: context.Background(), peerType: p2p.PeerType(in.ServerRole), host: fh, peers: newPeerRegistry(),
+		logger: slog.New(lg), notifier: &c04Notifier{}, hsSvc: hs, metrics: newMetrics(prometheus.NewRegistry(), "verif"),
+		blockMap: make(map[peer.ID]blockInfo)}
+	svc.peers.setDisconnector(svc)
+	remoteAddr := crypto.PubkeyToAddress(w.remoteKey.PublicKey)
+	var calls atomic.Int64
+	identityOK := atomic.Bool{}
+	identityOK.Store(true)
+	svc.AddStreamHandlers(p2p.StreamDesc{Name: "veriftest", Version: "1.0.0", Handler: func(_ context.Context, p p2p.Peer, _ p2p.Stream) error {
+		calls.Add(1)
+		if p.EthAddress != remoteAddr || p.Type != p2p.PeerType(in.ClientRole) {
+			identityOK.Store(false)
+		}
+		return nil
+	}})
+	hx := hex.EncodeToString
+	role := p2p.PeerType(in.ClientRole).String()
+	sig, _ := crypto.Sign(crypto.Keccak256([]byte(role+"tok")), w.remoteKey)
+	own := p2p.PeerType(in.ServerRole).String()
+	wire := append(c04FrameBytes(c04Frame{T: "req", Role: hx([]byte(role)), Token: hx([]byte("tok")), Sig: hx(sig)}),
+		c04FrameBytes(c04Frame{T: "resp", Observed: hx(crypto.PubkeyToAddress(w.localKey.PublicKey).Bytes()), Role: hx([]byte(own))})...)
+	conn := &c04Conn{pid: w.remoteID}
+	hit, gate := make(chan struct{}), make(chan struct{})
+	n := 0
+	ls := &c04Stream{rd: bytes.NewReader(wire), conn: conn, writeFail: -1}
+	ls.onConn = func() {
+		n++
+		if n == 2 { // the registry call, after the handshake itself returned
+			close(hit)
+			<-gate
+		}
+	}
+	hsDone := make(chan struct{})
+	go func() { defer close(hsDone); svc.handleConnectReq(ls) }()
+	select {
+	case <-hit:
+	case <-hsDone:
+	case <-time.After(3 * time.Second):
+	}
+	obs.ConnectOK = true // the initiator has everything it waits for: its Connect returned
+	var hdr c13Buf20
+	_ = newMetadataStream(&hdr).WriteHeader(context.Background(), p2p.Header{})
+	st := &c04Stream{rd: bytes.NewReader(hdr.Bytes()), conn: conn, writeFail: -1}
+	stDone := make(chan struct{})
+	go func() { defer close(stDone); fh.handler(st) }()
+	time.Sleep(time.Duration(in.DelayMs) * time.Millisecond)
+	close(gate)
+	for _, c := range []chan struct{}{hsDone, stDone} {
+		select {
+		case <-c:
+		case <-time.After(3 * time.Second):
+		}
+	}
+	if !st.reset && calls.Load() == 1 {
+		obs.StreamsOK = 1
+	}
+	obs.HandlerCalls = int(calls.Load())
+	obs.IdentityOK = identityOK.Load()
+	obs.UnknownPeer = int(lg.unknown.Load())
+	return obs
+}
+
+type c13Buf20 struct{ bytes.Buffer }
+
+func (*c13Buf20) Close() error { return nil }
+func (*c13Buf20) Reset() error { return nil }
+
 func TestVerifC20(t *testing.T) {
 	out := newVout(t, "C20")
 	defer out.close()
@@ -301,6 +427,18 @@ func TestVerifC20(t *testing.T) {
 		r := roles[i%len(roles)]
 		in := c20In{Tag: "gated", Gated: true, DelayMs: d, Streams: 1 + i%3, ServerRole: r[0], ClientRole: r[1]}
 		out.emit(in, c20Run(t, in, rng))
+	}
+	// the initiator is a restarted node: its previous incarnation's connection closes afterwards
+	for i, d := range []int{0, 40} {
+		r := roles[(i+2)%len(roles)]
+		in := c20In{Tag: "reincarnated", Gated: d > 0, DelayMs: d, Streams: 2, ServerRole: r[0], ClientRole: r[1], Reincarnated: true, FirstAfter: 0}
+		out.emit(in, c20Run(t, in, rng))
+	}
+	// the responder is held between the end of its handshake and the registration of the peer
+	for i, d := range []int{5, 60} {
+		r := roles[i%len(roles)]
+		in := c20In{Tag: "held-before-register", Gated: true, DelayMs: d, Streams: 1, ServerRole: r[0], ClientRole: r[1], HeldBeforeRegister: true}
+		out.emit(in, c20HeldBeforeRegister(t, in, rng))
 	}
 	// the same with a transport connection the responder dialed
 	for i, d := range delays {
